@@ -158,6 +158,45 @@ pub fn compact_runs(prop: u8, tier: &str) -> (u64, usize, Vec<Viol>) {
             out.extend(v);
         }
     }
+    // one universe of 4^8 leaves (lists of up to 65 536 + cells): few runs, all forms
+    {
+        let base = rc::all_cells(0);
+        let root = under(rc::children(base[10])[1], &[2]);
+        let l = leaves(root, 8);
+        let e: Vec<usize> = if tier == "quick" { vec![0, 1, 4, 32768, 65535, 65536] } else { vec![0, 1, 3, 4, 16, 255, 256, 1024, 4095, 4096, 16384, 32767, 32768, 49152, 65280, 65532, 65535, 65536] };
+        let mut pairs = Vec::new();
+        for (i, &a) in e.iter().enumerate() {
+            for &b in &e[i + 1..] {
+                if b - a >= 16000 {
+                    pairs.push((a, b));
+                }
+            }
+        }
+        let res: Vec<(u64, usize, Vec<Viol>)> = pairs
+            .par_iter()
+            .map(|&(a, b)| {
+                let run = &l[a..b];
+                let mut cnt = 0u64;
+                let mut lg = 0usize;
+                let mut vs = Vec::new();
+                for (_form, input) in forms(run, prop == 8) {
+                    cnt += 1;
+                    lg = lg.max(input.len());
+                    let v = if prop == 8 { oracle_c08(&input, false) } else { oracle_c10(&input) };
+                    if !v.is_empty() {
+                        vs.extend(v);
+                        break;
+                    }
+                }
+                (cnt, lg, vs)
+            })
+            .collect();
+        for (c, lg, v) in res {
+            n += c;
+            longest = longest.max(lg);
+            out.extend(v);
+        }
+    }
     (n, longest, out)
 }
 
@@ -296,7 +335,7 @@ pub fn uncompact_long(tier: &str) -> (u64, usize, Vec<Viol>) {
             (rc::children(base[7])[1], 4),
         ]
     };
-    let lens: Vec<usize> = if tier == "quick" { vec![2, 255, 256, 257, 300, 511, 512, 513, 1025] } else { vec![2, 3, 255, 256, 257, 300, 340, 511, 512, 513, 767, 1023, 1024, 1025, 2049, 4097] };
+    let lens: Vec<usize> = if tier == "quick" { vec![2, 255, 256, 257, 300, 511, 512, 513, 1025] } else { vec![2, 3, 255, 256, 257, 300, 340, 511, 512, 513, 767, 1023, 1024, 1025, 2049, 4097, 16385, 65535, 65537] };
     for (root, t) in setups {
         let r0 = rc::resolution(root).unwrap();
         assert!(t - r0 >= 3);
